@@ -19,6 +19,10 @@ CHECKS = {
             "Hypothesis-generated messages through a real AnnexJCodec + exhaustive header-space enumeration, differential against an independent Annex J reference codec",
             "Generated parameters for all 12 BVLL functions go down through a real AnnexJCodec; the captured octets must equal an independent Annex J encoder (type, function, length == len(frame)); every payload length 0..1497 is visited; the full type x function x length-field header space, all short strings and mutated valid frames go up through AnnexJCodec.confirmation and must be refused with DecodingError exactly when the reference rejects, else restore every parameter.",
             "Trusts bpverif/ref/bvlc.py; frames are taken at the codec boundary, not from a UDP socket; well-formed frames with unknown function codes are left to C10."),
+    "C18": ("exploration",
+            "meaning-to-spellings generation (exhaustive stations/prefixes/ports + Hypothesis), oracle = field semantics via stdlib ipaddress, print/parse round trip, equivalence-relation and hash checks over pools of near-miss meanings",
+            "Addresses are generated from their meaning outward into every documented spelling; each spelling must yield exactly the type, network and octets (and, for IP forms, the subnet/host/broadcast values computed by the stdlib ipaddress module), print/parse must round-trip, pools of equivalent spellings must be pairwise equal with equal hashes and address one dict slot while near-miss meanings stay distinct; out-of-range networks/stations and garbage strings must raise. All 256 stations, range-edge networks and all 33 prefixes x port boundaries are enumerated.",
+            "Route suffixes and route-aware equality are outside the statement and not generated; IPv4 sample addresses are boundary + random, not exhaustive."),
 }
 
 NOT_YET = {}
